@@ -3,6 +3,7 @@ Extensions of the encoding model (property C09, session 3).  Core Lean only.
   * certificates of the single-byte tables (injectivity, agreement with the independently tabulated encoder);
 -/
 import EzdxfVerif.Model.Encoding
+import EzdxfVerif.Model.Codec
 
 namespace EzdxfVerif.Encoding
 
@@ -243,6 +244,54 @@ def writeStrTags (s : Str) : List (Str × Str) := take2 (splitOn 10 s)
 
 /-- the preformatted string of a list of (code line, value) tags -/
 def tagLines (tags : List (Str × Str)) : Str := tags.flatMap (fun t => t.1 ++ [10] ++ t.2 ++ [10])
+
+/-! ### whole Binary DXF files: text tags through the document codec, then C03's tag framing (Model/Codec.lean)
+
+`BinaryTagWriter.write_tag2`: a string value is `str(value).encode(encoding, errors="dxfreplace")` + NUL;
+`binary_tags_loader`: the bytes up to the NUL are decoded with the detected codec; the strict reader's user applies
+`decode_dxf_unicode`.  Non-string values (integers, doubles, binary chunks) do not meet the codec. -/
+
+inductive TVal where
+  /-- a string value, still text -/
+  | text (s : Str)
+  /-- any other value, as C03 models it -/
+  | raw (v : EzdxfVerif.Codec.Val)
+
+structure TTag where
+  code : Nat
+  val : TVal
+
+def encodeTag (c : Codec) (f : Fmt) (t : TTag) : Except PyErr EzdxfVerif.Codec.BTag :=
+  match t.val with
+  | .text s => (encode c f s).map (fun b => ⟨t.code, .str b⟩)
+  | .raw v => .ok ⟨t.code, v⟩
+
+def encodeTags (c : Codec) (f : Fmt) : List TTag → Except PyErr (List EzdxfVerif.Codec.BTag)
+  | [] => .ok []
+  | t :: r =>
+    match encodeTag c f t, encodeTags c f r with
+    | .ok a, .ok b => .ok (a :: b)
+    | .error e, _ => .error e
+    | _, .error e => .error e
+
+/-- loader + `decode_dxf_unicode` on the string values -/
+def decodeTag (c : Codec) (t : EzdxfVerif.Codec.BTag) : TTag :=
+  match t.val with
+  | .str b => ⟨t.code, .text (decodeDxfUnicode (c.dec b))⟩
+  | v => ⟨t.code, .raw v⟩
+
+/-- a per-character respelling of a name: digits stay, nothing else becomes a digit (ASCII/Unicode case mapping,
+    full width -> half width letters, ...) -/
+def isDigitCp (x : Nat) : Bool := decide (48 ≤ x ∧ x ≤ 57)
+
+/-- the text of an ASCII DXF tag stream: `"%3d\\n%s\\n" % (code, value)` per tag (`TAG_STRING_FORMAT`; C03's `showCode`) -/
+def asciiFileText (ts : List (Nat × Str)) : Str :=
+  joinSep 10 (ts.flatMap (fun t => [EzdxfVerif.Codec.showCode t.1, t.2]))
+
+/-- the strict ASCII reader on the decoded text: lines (the empty item after the last LF dropped), paired up by C03's
+    `pairLines` (`int(code line)`), `decode_dxf_unicode` on every value -/
+def asciiReadTags (text : Str) : Option (List (Nat × Str)) :=
+  (EzdxfVerif.Codec.pairLines (splitOn 10 text).dropLast).map (List.map (fun p => (p.1, decodeDxfUnicode p.2)))
 
 /-! ### vocabulary of the per-code-page round trip theorems -/
 
